@@ -232,7 +232,10 @@ def _bounds_Assign_targets(
 
     bound_end_ln, bound_end_col, _, _ = ast.value.f.pars()
 
-    if bound_end_col and self.root._lines[bound_end_ln][bound_end_col - 1].isspace():  # leave space between end of bound and start of value so that we don't get stuff like 'a =b'
+    if (bound_end_col
+        and self.root._lines[bound_end_ln][bound_end_col - 1].isspace()
+        and (body or (bound_end_ln, bound_end_col) > self.loc[:2])  # if there are no targets then the space can be the indentation before the statement which does not belong to us
+    ):  # leave space between end of bound and start of value so that we don't get stuff like 'a =b'
         bound_end_col -= 1
 
     if start:
